@@ -41,6 +41,8 @@ def promoted_value(fn, op):
     if "promoted" in op:
         pid = "%s::promoted[%d]" % (fn.id if fn.kind != "promoted" else fn.body.get("of"), op["promoted"])
         pf = fn.prog.fns.get(pid)
+        if op.get("text") in fn.prog.fns and fn.prog.fns[op["text"]].kind == "promoted":
+            pf = fn.prog.fns[op["text"]]      # (code inlined from a helper or closure keeps its own promoteds)
         if pf is None:
             return None
         org = pf.origins_of_place({"local": 0, "proj": []})
